@@ -30,7 +30,7 @@ import render
 REPO_FILES = os.path.join(pl.REPO, 'tests', 'files')
 
 TRACE_CFG = ('SPECIFICATION Spec\nCONSTANTS\n  MaxLen = 0\n  Alphabet = {}\n  Mut = {}\n  MaxChanges = 0\n'
-             '  MinChanges = 0\n  Skips = {}\n  OnlyBfs = FALSE\n  FillerIdx = {}\n  Inject = FALSE\n  FinishEarly = FALSE\nPOSTCONDITION TraceAccepted\nCHECK_DEADLOCK FALSE\n')
+             '  MinChanges = 0\n  Skips = {}\n  OnlyBfs = FALSE\n  FillerIdx = {}\n  Inject = FALSE\n  FinishEarly = FALSE\n  OnlyWordPairs = FALSE\nPOSTCONDITION TraceAccepted\nCHECK_DEADLOCK FALSE\n')
 
 # Probe texts: every keyword the grammar matches as one literal, the other word sequences of X.680,
 # abutting punctuation, and character strings that contain comment markers.
@@ -197,17 +197,18 @@ def fixture_texts(tier):
 
 
 def probe_texts():
-    return [{'tid': 'probe-keywords', 'src': 'probe', 'name': 'probe: multi-word keywords', 'text': PROBE_KEYWORDS, 'bfs': True},
+    return [{'tid': 'probe-keywords', 'src': 'probe', 'name': 'probe: multi-word keywords', 'text': PROBE_KEYWORDS, 'bfs': True, 'kw': True},
             {'tid': 'probe-tiny', 'src': 'probe', 'name': 'probe: tiny', 'text': PROBE_TINY, 'bfs': True, 'bfs2': True},
             {'tid': 'probe-strings', 'src': 'probe', 'name': 'probe: strings with markers', 'text': PROBE_STRINGS, 'bfs': True},
             {'tid': 'probe-marker', 'src': 'probe', 'name': 'probe: -- in a string', 'text': PROBE_MARKER, 'bfs': True}]
 
 
-def layout_cfg(max_changes, min_changes, skips, only_bfs, fillers, inject, invariants):
+def layout_cfg(max_changes, min_changes, skips, bfs, fillers, inject, invariants, word_pairs=False):
     return ('SPECIFICATION LaySpec\nCONSTANTS\n  MaxLen = 0\n  Alphabet = {}\n  Mut = {}\n  MaxChanges = %d\n  MinChanges = %d\n'
-            '  %s\n  OnlyBfs = %s\n  %s\n  Inject = %s\n  FinishEarly = %s\n%sCHECK_DEADLOCK FALSE\n' % (
-                max_changes, min_changes, skips, 'TRUE' if only_bfs else 'FALSE', fillers, 'TRUE' if inject else 'FALSE',
-                'TRUE' if only_bfs else 'FALSE', ''.join('INVARIANT %s\n' % i for i in invariants)))
+            '  %s\n  OnlyBfs = %s\n  %s\n  Inject = %s\n  FinishEarly = %s\n  OnlyWordPairs = %s\n%sCHECK_DEADLOCK FALSE\n' % (
+                max_changes, min_changes, skips, 'TRUE' if bfs else 'FALSE', fillers, 'TRUE' if inject else 'FALSE',
+                'TRUE' if bfs else 'FALSE', 'TRUE' if word_pairs else 'FALSE',
+                ''.join('INVARIANT %s\n' % i for i in invariants)))
 
 
 def read_ndjson(paths):
@@ -221,6 +222,14 @@ def read_ndjson(paths):
 
 def layout_phase(run, tier, seed):
     quick = tier == 'quick'
+    t_last = [time.time()]
+
+    cpu_last = [sum(os.times()[:4])]
+
+    def clock(what):
+        cpu = sum(os.times()[:4])         # own + finished children (drivers, TLC), user + system
+        run.notes.setdefault('phase_seconds_wall_cpu', {})[what] = [round(time.time() - t_last[0], 1), round(cpu - cpu_last[0], 1)]
+        t_last[0], cpu_last[0] = time.time(), cpu
     texts = probe_texts() + generated_modules(run, tier) + fixture_texts(tier)
     texts.sort(key=lambda t: -len(t['text']))     # heavy texts first so that they spread over the shards
     tpath = run.path('texts.ndjson')
@@ -229,6 +238,7 @@ def layout_phase(run, tier, seed):
                           'fixtures': sum(t['src'] == 'fixture' for t in texts),
                           'characters': sum(len(t['text']) for t in texts)}
 
+    clock('texts (TypeGen, render, read fixtures)')
     # B1: ignore_comments on whole texts, judged line by line; the model returns the comment-free text
     tshards = pl.drive(run, 'drive_comments.py', tpath, 'ttrace', ['--mode', 'texts'])
     for s in tshards:
@@ -236,6 +246,7 @@ def layout_phase(run, tier, seed):
             os.unlink(s + '.blank')
     treports = pl.validate(run, 'Trace_Comments', TRACE_CFG, tshards, what='Trace_Comments whole texts', timeout=7200, heap='6g')
 
+    clock('ignore_comments on texts + validation')
     # tokenize the model's comment-free texts into windows
     origdir = run.path('orig')
     tok_shards = pl.drive(run, 'drive_comments.py', tpath, 'tok',
@@ -246,33 +257,46 @@ def layout_phase(run, tier, seed):
     if skipped:
         raise pl.Machinery('texts without tokens: %s' % skipped[:3])
     by_tid = {t['tid']: t for t in texts}
-    wpath = run.path('tokens.ndjson')
-    pl.write_cases([{k: w[k] for k in ('wid', 'toks', 'fill0', 'bfs', 'inj')} for w in wins], wpath)
-    w2path = run.path('tokens2.ndjson')
-    pl.write_cases([{'wid': w['wid'], 'toks': w['toks'], 'fill0': w['fill0'], 'bfs': True, 'inj': w['inj']}
-                    for w in wins if by_tid[w['tid']].get('bfs2')], w2path)
+
+    def tokens_file(name, pred):
+        path = run.path(name)
+        pl.write_cases([{'wid': w['wid'], 'toks': w['toks'], 'fill0': w['fill0'], 'bfs': True, 'inj': w['inj']}
+                        for w in wins if pred(by_tid[w['tid']])], path)
+        return path
+    wpath = tokens_file('tokens.ndjson', lambda t: True)
     run.notes['windows'] = len(wins)
     run.notes['tokens_in_windows'] = sum(len(w['toks']) for w in wins)
     run.notes['texts_not_accepted_as_they_are'] = sorted(set(by_tid[w['tid']]['name'] for w in wins if w['parse0'] != 'ok'))
+    clock('tokenize')
 
     # A2: schedules
     scheds = []
     inv = ['LastChangeInert', 'TokenSeqUnchangedSmall']
-    out, res = pl.tlc_generate(run, 'Layout', layout_cfg(1, 1, 'Skips <- AnySkip', True, 'FillerIdx <- AllFillers', not quick, inv),
-                               'sched_bfs1.ndjson', workers=workers(), env={'TOKENS_FILE': wpath},
-                               what='Layout BFS: every single filler change at every boundary of the probe texts')
-    scheds += pl.dedup_cases(out, 'b1')
-    out, res = pl.tlc_generate(run, 'Layout', layout_cfg(2, 2, 'Skips <- AnySkip', True,
-                                                         'FillerIdx = {1, 5, 6, 7, 8}' if quick else 'FillerIdx <- AllFillers', False, inv),
-                               'sched_bfs2.ndjson', workers=workers(), env={'TOKENS_FILE': w2path},
-                               what='Layout BFS: every pair of filler changes on the tiny probe')
-    scheds += pl.dedup_cases(out, 'b2')
-    num, depth = (300, 100) if quick else (6000, 200)
-    out, res = pl.tlc_generate(run, 'Layout', layout_cfg(100000, 1, 'Skips = {1, 2, 3, 5, 8, 13, 21, 34}', False, 'FillerIdx <- AllFillers', True, []),
+    allf = 'FillerIdx <- AllFillers'
+    if quick:
+        runs = [('b1', 1, allf, False, tokens_file('tokens_b1.ndjson', lambda t: t.get('bfs') and not t.get('kw')),
+                 'every single filler change at every boundary of the small probe texts'),
+                ('bw', 1, allf, True, tokens_file('tokens_bw.ndjson', lambda t: t.get('kw')),
+                 'every single filler change between the words of multi-word keywords in the keyword probe'),
+                ('b2', 2, 'FillerIdx = {1, 5, 7, 10}', False, tokens_file('tokens_b2.ndjson', lambda t: t.get('bfs2')),
+                 'every pair of filler changes (4 fillers) on the tiny probe')]
+    else:
+        runs = [('b1', 1, allf, False, tokens_file('tokens_b1.ndjson', lambda t: t.get('bfs')),
+                 'every single filler change at every boundary of the probe texts'),
+                ('b2', 2, allf, False, tokens_file('tokens_b2.ndjson', lambda t: t.get('bfs2')),
+                 'every pair of filler changes on the tiny probe')]
+    for tag, nchg, fillers, wp, path, what in runs:
+        out, res = pl.tlc_generate(run, 'Layout', layout_cfg(nchg, nchg, 'Skips <- AnySkip', True, fillers, not quick and nchg == 1, inv, wp),
+                                   'sched_%s.ndjson' % tag, workers=workers(), env={'TOKENS_FILE': path}, what='Layout BFS: ' + what)
+        scheds += pl.dedup_cases(out, tag)
+    clock('layout bfs')
+    num, depth = (150, 100) if quick else (6000, 200)
+    out, res = pl.tlc_generate(run, 'Layout', layout_cfg(100000, 1, 'Skips = {1, 2, 3, 5, 8, 13, 21, 34}', False, allf, True, []),
                                'sched_sim.ndjson', workers=workers(), simulate='num=%d' % num, depth=depth,
                                env={'TOKENS_FILE': wpath}, timeout=3600,
                                what='Layout -simulate num=%d: left-to-right sweeps over all windows' % num)
     scheds += pl.dedup_cases(out, 's')
+    clock('layout simulate')
     # the tokenizer self-check as a schedule: a single space at every boundary of every window
     for w in wins:
         scheds.append({'cid': 'allsp-' + w['wid'], 'wid': w['wid'], 'ch': [[b, 2] for b in range(1, len(w['toks']))],
@@ -297,8 +321,10 @@ def layout_phase(run, tier, seed):
     lshards = pl.drive(run, 'drive_comments.py', cpath, 'ltrace',
                        ['--mode', 'layout', '--texts', tpath, '--tokens', ','.join(tok_shards), '--origdir', origdir],
                        timeout=5 * 3600)
+    clock('parse re-laid-out texts')
     lreports = pl.validate(run, 'Trace_Comments', TRACE_CFG, lshards, what='Trace_Comments layouts and error lines',
                            timeout=7200, heap='6g')
+    clock('validate layouts')
     # coverage accounting
     for s in lshards:
         with open(s) as f:
